@@ -25,7 +25,7 @@ FINGERPRINTS = {
     "sha256.c": ["sha256_compress", "sha256_init", "sha256_process", "sha256_done", "sha256_hash"],
     "sha512.c": ["sha512_compress", "sha512_init", "sha512_process", "sha512_done", "sha512_hash"],
     "md5.c": ["MD5Transform", "MD5Init", "MD5Update", "MD5Final"],
-    "scram.c": ["crypto_HMAC"],
+    "scram.c": ["crypto_HMAC", "crypto_HMAC_parts"],
     "crypto.c": ["digest_to_string", "digest_to_string_alloc", "xmpp_sha1", "xmpp_sha1_digest",
                  "xmpp_sha1_new", "xmpp_sha1_update", "xmpp_sha1_final", "xmpp_sha1_to_string",
                  "xmpp_sha1_to_string_alloc", "xmpp_sha1_to_digest"],
@@ -280,7 +280,8 @@ def _hmac():
         if not m:
             raise ExtractError("scram.c: %s not found" % name)
         pads[name] = int(m.group(1), 0)
-    body = fn_body(text, "crypto_HMAC")
+    # since 61739ad crypto_HMAC is a thin wrapper around crypto_HMAC_parts (text || text2)
+    body = fn_body(text, "crypto_HMAC_parts") if "crypto_HMAC_parts" in text else fn_body(text, "crypto_HMAC")
     m = re.search(r"blocksize\s*=\s*alg\s*->\s*digest_size\s*<\s*(\d+)\s*\?\s*(\d+)\s*:\s*(\d+)\s*;", body)
     if not m:
         raise ExtractError("crypto_HMAC: block-size rule not found")
